@@ -113,7 +113,7 @@ type Obligation struct {
 	Except    string
 	Bounded   bool
 	ExpectSat bool
-	Blk       int // block of the function under proof the obligation arises in (-1: none)
+	Blk       int  // block of the function under proof the obligation arises in (-1: none)
 	Short     bool // listed known finding: short solver budget, no retry
 }
 
